@@ -282,3 +282,9 @@ pub fn parse_source(src: &str) -> Result<BlockStmt, String> {
     let d = parse_debug(&dbg)?;
     to_block(&d)
 }
+
+/// a block from its Debug rendering
+pub fn parse_debug_block(dbg: &str) -> Result<BlockStmt, String> {
+    let d = parse_debug(dbg)?;
+    to_block(&d)
+}
